@@ -3,6 +3,7 @@ CONSTANTS
   MaxPipelines = 2
   DqConfigs = {"a", "b"}
   M_DeadQueueOnCopy = TRUE
+  M_LenCheckedBeforeTypeRemoved = TRUE
   D_DqConfigOnRegistryEntry = TRUE
 INVARIANTS DeadQueueIffDeclared DeadQueueIsOwnModuloDeviation
 CHECK_DEADLOCK FALSE
